@@ -606,6 +606,9 @@ def m_read_until(it, argv, text):
 
 @emodel('Read::read_exact')
 def m_read_exact(it, argv, text):
+    """BufReader<File>::read_exact, with the buffer discipline of std's BufReader (capacity 8 KiB): data is served
+    from the buffer; an empty buffer is refilled with up to one capacity, except that a request of at least one
+    capacity bypasses it"""
     env = env_of(it)
     rd = it.deref_all(argv[0])
     h = env.handles[rd.data]
@@ -620,13 +623,33 @@ def m_read_exact(it, argv, text):
     if env.maybe_fail('read', comps_to_bytes(h['comps'])):
         return err(io_error('Other'))
     content = n[2]
-    pos = h['pos']
-    if pos + want > len(content):
-        h['pos'] = len(content)
+    start = h['pos']
+    pos = start
+    bend = max(h.get('bufend', 0), pos) if h.get('bufend') is not None else pos
+    remaining = want
+    while remaining > 0:
+        avail = bend - pos
+        if avail > 0:
+            take = min(avail, remaining)
+            pos += take
+            remaining -= take
+        elif remaining >= Env.BUFCAP and rd.kind == 'BufReader':
+            take = min(remaining, len(content) - pos)
+            if take == 0:
+                break
+            pos += take
+            remaining -= take
+            bend = pos
+        else:
+            bend = min(len(content), pos + Env.BUFCAP)
+            if bend == pos:
+                break
+    h['pos'] = pos
+    h['bufend'] = bend
+    if remaining > 0:
         return err(io_error('UnexpectedEof'))
     base = it.load(dst.addr)
-    it.store(dst.addr, VecV(base.e[:dst.start] + tuple(content[pos:pos + want]) + base.e[dst.end:]))
-    h['pos'] = pos + want
+    it.store(dst.addr, VecV(base.e[:dst.start] + tuple(content[start:start + want]) + base.e[dst.end:]))
     return ok(UNIT)
 
 
@@ -1074,3 +1097,85 @@ def m_try_recv(it, argv, text):
 def m_recv(it, argv, text):
     r = m_try_recv(it, argv, text)
     return r
+
+
+@emodel('BufRead::fill_buf')
+def m_fill_buf(it, argv, text):
+    env = env_of(it)
+    rd = it.deref_all(argv[0])
+    h = env.handles[rd.data]
+    n = env.find(h['comps'])
+    if n is None or n[1] != 'file':
+        return err(io_error('IsADirectory'))
+    if env.maybe_fail('read', comps_to_bytes(h['comps'])):
+        return err(io_error('Other'))
+    # a BufReader never holds more than its capacity (8 KiB by default)
+    bstart = h.get('bufstart')
+    if bstart is None or h['pos'] >= h.get('bufend', 0):
+        h['bufstart'] = h['pos']
+        h['bufend'] = min(len(n[2]), h['pos'] + Env.BUFCAP)
+    return ok(VecV(tuple(n[2][h['pos']:h['bufend']])))
+
+
+@emodel('BufRead::consume')
+def m_consume(it, argv, text):
+    env = env_of(it)
+    rd = it.deref_all(argv[0])
+    h = env.handles[rd.data]
+    h['pos'] += argv[1]
+    return UNIT
+
+
+@emodel('BufReader::buffer')
+def m_bufreader_buffer(it, argv, text):
+    env = env_of(it)
+    rd = it.deref_all(argv[0])
+    h = env.handles[rd.data]
+    n = env.find(h['comps'])
+    if n is None or h.get('bufend') is None:
+        return VecV(())
+    return VecV(tuple(n[2][h['pos']:max(h['pos'], h['bufend'])]))
+
+
+@emodel('Read::read_to_end', 'Read::read_to_string')
+def m_read_to_end(it, argv, text):
+    env = env_of(it)
+    rd = it.deref_all(argv[0])
+    h = env.handles[rd.data]
+    n = env.find(h['comps'])
+    if n is None or n[1] != 'file':
+        return err(io_error('IsADirectory'))
+    if env.maybe_fail('read', comps_to_bytes(h['comps'])):
+        return err(io_error('Other'))
+    data = tuple(n[2][h['pos']:])
+    if text.endswith('read_to_string') and not valid_utf8(it, data):
+        return err(io_error('InvalidData'))
+    h['pos'] = len(n[2])
+    cur = it.load(argv[1].addr)
+    if isinstance(cur, StrV):
+        it.store(argv[1].addr, StrV(cur.b + data))
+    else:
+        it.store(argv[1].addr, VecV(cur.e + data))
+    return ok(len(data))
+
+
+@emodel('Read::read')
+def m_read(it, argv, text):
+    env = env_of(it)
+    rd = it.deref_all(argv[0])
+    h = env.handles[rd.data]
+    dst = argv[1]
+    n = env.find(h['comps'])
+    if isinstance(dst, RefV):
+        inner = it.load(dst.addr)
+        dst = SliceV(dst.addr, 0, len(inner.e))
+    if n is None or n[1] != 'file':
+        return err(io_error('IsADirectory'))
+    if env.maybe_fail('read', comps_to_bytes(h['comps'])):
+        return err(io_error('Other'))
+    want = dst.end - dst.start
+    got = min(want, len(n[2]) - h['pos'])
+    base = it.load(dst.addr)
+    it.store(dst.addr, VecV(base.e[:dst.start] + tuple(n[2][h['pos']:h['pos'] + got]) + base.e[dst.start + got:]))
+    h['pos'] += got
+    return ok(got)
